@@ -529,3 +529,94 @@ func flowsToReturn(v ssa.Value) bool {
 	}
 	return walk(v)
 }
+
+// serveRegion: (*Server).serve plus the functions of package wire it reaches through static calls
+// without entering the command loop. A maintainer may split serve into helpers; rules about "what serve
+// does before the command loop" range over this region.
+func (c *Ctx) serveRegion() map[*ssa.Function]bool {
+	out := map[*ssa.Function]bool{}
+	stop := c.P.Method("wire", "Session", "consumeCommands")
+	var walk func(fn *ssa.Function)
+	walk = func(fn *ssa.Function) {
+		if fn == nil || out[fn] || fn == stop || !c.P.InPkg(fn, "wire") {
+			return
+		}
+		out[fn] = true
+		for _, ci := range core.Calls(fn) {
+			if _, isGo := ci.(*ssa.Go); isGo {
+				continue
+			}
+			walk(core.StaticCallee(ci))
+		}
+	}
+	walk(c.P.Method("wire", "Server", "serve"))
+	return out
+}
+
+// flowsFromCallResult reports whether v is result idx of a call of target, directly or through
+// parameters of region functions all of whose call sites pass such a value.
+func (c *Ctx) flowsFromCallResult(v ssa.Value, target *ssa.Function, idx int, depth int) bool {
+	if depth > 4 {
+		return false
+	}
+	v = core.Strip(v)
+	if mi, ok := v.(*ssa.MakeInterface); ok {
+		v = core.Strip(mi.X)
+	}
+	switch x := v.(type) {
+	case *ssa.Extract:
+		if call, ok := x.Tuple.(*ssa.Call); ok && core.StaticCallee(call) == target && x.Index == idx {
+			return true
+		}
+	case *ssa.Parameter:
+		fn := x.Parent()
+		pi := -1
+		for i, p := range fn.Params {
+			if p == x {
+				pi = i
+			}
+		}
+		sites := c.P.CallSitesOf(fn)
+		if pi < 0 || len(sites) == 0 {
+			return false
+		}
+		for _, s := range sites {
+			if !c.flowsFromCallResult(s.Common().Args[pi], target, idx, depth+1) {
+				return false
+			}
+		}
+		return true
+	case *ssa.Phi:
+		for _, e := range x.Edges {
+			if !c.flowsFromCallResult(e, target, idx, depth+1) {
+				return false
+			}
+		}
+		return true
+	}
+	return false
+}
+
+// onlyReachedThrough reports whether every static call chain (inside S) that reaches fn passes through
+// gate: each caller of fn is gate itself or is, recursively, only reached through gate.
+func (c *Ctx) onlyReachedThrough(fn, gate *ssa.Function, depth int) (bool, []string) {
+	if fn == gate {
+		return true, nil
+	}
+	if depth > 6 {
+		return false, []string{"call chain too deep"}
+	}
+	sites := c.P.CallSitesOf(fn)
+	if len(sites) == 0 {
+		return false, []string{fkey(fn) + " has no caller"}
+	}
+	var who []string
+	ok := true
+	for _, s := range sites {
+		who = append(who, fkey(s.Parent()))
+		if sub, _ := c.onlyReachedThrough(s.Parent(), gate, depth+1); !sub {
+			ok = false
+		}
+	}
+	return ok, who
+}
